@@ -11,6 +11,7 @@ expression := ["S", v, u, c|None] | ["Sc", c] | ["Scu", c, u] | ["A", kind, [v..
             | ["m", e, method, [json args]] | ["mk", e, method, {json kwargs}]
             | ["db", method, [json args]] | ["dbl", method, [json args]]  (dbl: list(result))
             | ["db2", method, [json args]] | ["db2l", ...]   (the same on the second database instance)
+            | ["twice", e, method, [json args]]   (one object asked the same question twice)
             | ["val", scalar-expr]   (ScalarMinMaxValidator message)
 """
 import operator
@@ -87,9 +88,21 @@ def evaluate(e):
     if tag == "mk":
         return getattr(evaluate(e[1]), e[2])(**e[3])
     if tag == "db":
-        return getattr(UnitDatabase.GetSingleton(), e[1])(*e[2])
+        return getattr(UnitDatabase.GetSingleton(), e[1])(*[_arg(a) for a in e[2]])
     if tag == "dbl":
         return list(getattr(UnitDatabase.GetSingleton(), e[1])(*e[2]))
+    if tag == "twice":
+        # one object, the same question twice: [first outcome, second outcome]
+        from . import fp as F
+
+        obj = evaluate(e[1])
+        outs = []
+        for _ in range(2):
+            try:
+                outs.append(["ok", F.fp(getattr(obj, e[2])(*e[3]))])
+            except Exception as ex:
+                outs.append(["exc", type(ex).__name__])
+        return outs
     if tag == "db2":
         return getattr(OTHER["db"], e[1])(*e[2])
     if tag == "db2l":
@@ -101,10 +114,20 @@ def evaluate(e):
     raise ValueError("bad query tag %r" % (tag,))
 
 
+def _arg(a):
+    if isinstance(a, dict) and "box" in a:
+        from .ops import SimBox
+
+        return SimBox(a["box"])
+    return a
+
+
 def label(e):
     tag = e[0]
     if tag in ("m", "mk"):
         return "%s.%s" % (label(e[1]), e[2])
+    if tag == "twice":
+        return "twice.%s.%s" % (label(e[1]), e[2])
     if tag in ("db", "dbl"):
         return "db." + e[1]
     if tag in ("db2", "db2l"):
@@ -115,6 +138,18 @@ def label(e):
         return "num.%s(%s)" % (e[1], label(e[2]))
     if tag == "pow":
         return "pow(%s)" % label(e[1])
+    if tag == "twice":
+        # one object, the same question twice: [first outcome, second outcome]
+        from . import fp as F
+
+        obj = evaluate(e[1])
+        outs = []
+        for _ in range(2):
+            try:
+                outs.append(["ok", F.fp(getattr(obj, e[2])(*e[3]))])
+            except Exception as ex:
+                outs.append(["exc", type(ex).__name__])
+        return outs
     if tag == "db2":
         return getattr(OTHER["db"], e[1])(*e[2])
     if tag == "db2l":
@@ -139,4 +174,4 @@ def names(e, out=None):
     return out
 
 
-TAGS = {"db2", "db2l", "Sq", "Aq", "S", "Sc", "Scu", "A", "FA", "FS", "Q", "Qn", "Qd", "bin", "num", "pow", "m", "mk", "db", "dbl", "val"}
+TAGS = {"twice", "db2", "db2l", "Sq", "Aq", "S", "Sc", "Scu", "A", "FA", "FS", "Q", "Qn", "Qd", "bin", "num", "pow", "m", "mk", "db", "dbl", "val"}
